@@ -38,6 +38,15 @@ impl Dependencies for ReturnStatement {
 
 impl Parser {
     pub fn return_statement(input: Node) -> Result<ReturnStatement, Vec<anyhow::Error>> {
+        // a module is not left with `ret`: the code that imports it waits for the module it yields
+        if !input.user_data().is_inside_function() {
+            return Err(vec![new_err(
+                input.as_span(),
+                &input.user_data().get_source_file_name(),
+                "`return` can only be used inside of a function".to_owned(),
+            )]);
+        }
+
         input.user_data().mark_should_return_as_completed();
 
         let value_node = input.children().next();
